@@ -58,7 +58,7 @@ def choose_files(wl, tier, cfg):
     second chains, disulfides, ligand fragments and ions first."""
     single, multi = [], []
     for inp in wl['inputs']:
-        if inp['tags'][0] in ('crlf', 'bter', 'cbt', 'bom'):
+        if inp['tags'][0] in ('crlf', 'bter', 'cbt', 'bom', 'h36'):
             continue   # non-standard record formatting is not a loss pattern
         recs = M.split_records(inp['text'])
         n = len(M.atom_indices(recs))
